@@ -250,13 +250,24 @@ func c04Replay(raw json.RawMessage) (string, bool, error) {
 	return fmt.Sprintf("kind=%s input=%s handler=%s/%q clause=%q %s", cs.Kind, trunc(cs.Input, 200), cs.Result, cs.Text, clause, detail), clause != "", nil
 }
 
+func c04ReplayAll(raw json.RawMessage) (string, bool, error) {
+	var probe struct {
+		Sched bool `json:"sched"`
+	}
+	json.Unmarshal(raw, &probe)
+	if probe.Sched {
+		return c04SchedReplay(raw)
+	}
+	return c04Replay(raw)
+}
+
 func init() {
 	fw.Register(&fw.Prop{
 		ID:          "C04",
 		Level:       "exploration",
-		Rule:        "(a) every valid request shape of the grammar (<=12 shapes per command; thorough: all shapes, and pairs of positions for the first 40) with each argument position, command name included, replaced by each of 13 (thorough 23) nasty strings (CR, LF, CRLF followed by forged +OK / :1 / $-1 frames, NUL, 0xff, type characters), pairs of positions for the first shapes; 21 non-command top-level values (status, error, integer, bulk, null, empty array, null/integer/status/error/nested first element), alone and doubled inside a pipeline; (b) 29 trigger commands x 10 handler result kinds (status/error/integer/bulk/array/nested carrying each nasty string, (nil,nil), (nil,err), (msg,err), nil bulk); (c) the example store preloaded with nasty keys/values/members and read back by 24 commands. Oracle: the whole reply log is a concatenation of complete strict-RESP2 values, with exactly one frame per request (fewer only if the server closed the connection).",
+		Rule:        "(a) every valid request shape of the grammar (<=12 shapes per command; thorough: all shapes, and pairs of positions for the first 40) with each argument position, command name included, replaced by each of 13 (thorough 23) nasty strings (CR, LF, CRLF followed by forged +OK / :1 / $-1 frames, NUL, 0xff, type characters), pairs of positions for the first shapes; 21 non-command top-level values (status, error, integer, bulk, null, empty array, null/integer/status/error/nested first element), alone and doubled inside a pipeline; (b) 29 trigger commands x 10 handler result kinds (status/error/integer/bulk/array/nested carrying each nasty string, (nil,nil), (nil,err), (msg,err), nil bulk); (c) the example store preloaded with nasty keys/values/members and read back by 24 commands. (d) two connections running scripts with replies of every type and of different lengths through the real accept loop, every schedule within deviation bound 2 (thorough 3): each connection's bytes must decode strictly into exactly its own replies (no bytes shared between connections). Oracle: the whole reply log is a concatenation of complete strict-RESP2 values, with exactly one frame per request (fewer only if the server closed the connection).",
 		Assumptions: []string{"the strict decoder in /verif/resp judges the reply stream", "panics/hangs are judged by C07/C03, not here"},
-		Run:         c04Run,
-		Replay:      c04Replay,
+		Run:         func(c *fw.Ctx) { c04Run(c); c04Sched(c) },
+		Replay:      c04ReplayAll,
 	})
 }
